@@ -117,10 +117,9 @@ void Model::emit_from_bus(int r, Exp e, bool fl) {
   }
   int verdict = bus_may_deliver(r, e.m);
   if (verdict == 2) e.optional = true;
-  if (!verdict) {
-    probes["bus_message_refused_by_receive_policy"]++;
-    // monitors may additionally be shown the refusal itself: an AccessDenied error "in reply to" the
-    // refused message, addressed to the bus
+  if (verdict != 1) {
+    // monitors may additionally be shown the refusal itself: an error "in reply to" the refused message,
+    // addressed to the bus (AccessDenied for a receive policy, LimitsExceeded for a full queue)
     for (size_t i = 0; i < conns.size(); i++) {
       if (!conns[i].alive || !conns[i].monitor) continue;
       Exp x;
@@ -128,12 +127,16 @@ void Model::emit_from_bus(int r, Exp e, bool fl) {
       x.m = wire::Msg::error(1, 1, BUS, E_ACCESS);
       x.m.set_field(wire::F_SENDER, wire::Value::string(BUS));
       x.any_reply_serial = true;
+      x.any_error_name = true;
       x.ignore_body = true;
       x.optional = true;
       x.what = "monitor's copy of the refusal of a bus-originated message";
       x.prop = "C18";
       emit((int)i, x);
     }
+  }
+  if (!verdict) {
+    probes["bus_message_refused_by_receive_policy"]++;
     return;
   }
   if (fl) emit_floating(r, std::move(e)); else emit(r, std::move(e));
@@ -147,13 +150,13 @@ static void resolve_value(const Model &md, wire::Value &v) {
 // a bus-originated error whose name the documents leave open: the monitor's copy is as loose as the original
 // When policy refuses a message for one of its recipients, monitors may be shown the refusal: an
 // AccessDenied error "in reply to" the message (addressed to its sender).
-void Model::monitors_may_see_refusal(int sender, const wire::Msg &m) {
+void Model::monitors_may_see_refusal(int sender, const wire::Msg &m, const char *errname) {
   if (sender < 0) return;   // a broadcast from the bus has no serial: there is nothing to reply to
   for (size_t i = 0; i < conns.size(); i++) {
     if (!conns[i].alive || !conns[i].monitor) continue;
     Exp x;
     x.from_bus = true;
-    x.m = wire::Msg::error(1, m.serial, sender >= 0 ? U(sender) : std::string(BUS), E_ACCESS);
+    x.m = wire::Msg::error(1, m.serial, sender >= 0 ? U(sender) : std::string(BUS), errname ? errname : E_ACCESS);
     x.m.set_field(wire::F_SENDER, wire::Value::string(BUS));
     x.any_reply_serial = sender < 0;
     x.any_destination = true;
@@ -185,7 +188,19 @@ void Model::capture_loose(const Exp &orig, int addressed, bool fl) {
     wire::Msg rm = orig.m;
     for (auto &f : rm.fields) resolve_value(*this, f.val);
     bool hit = false, maybe = false;
-    for (auto &r : k.mon_rules) { int v = monitor_rule_verdict(r, rm, ctx); if (v == 1) hit = true; else if (v == 2) maybe = true; }
+    // What the driver addresses to a connection it is disconnecting or turning into a monitor (NameLost for each
+    // of its names) is matched against an addressee that is losing its names one by one, in the bus's internal
+    // order: whether a filter on that connection's unique name takes a given one of these signals is left open.
+    bool stripping = addressed >= 0 && (size_t)addressed < conns.size() && (!conns[(size_t)addressed].alive || addressed == becoming_monitor);
+    std::string stripped_un = stripping ? resolve(U(addressed)) : std::string();
+    for (auto &r : k.mon_rules) {
+      if (stripping && r.has_destination && r.destination == stripped_un) {
+        mr::Rule r2 = r; r2.has_destination = false;
+        if (mr::matches(r2, rm, ctx, false)) maybe = true;
+        continue;
+      }
+      int v = monitor_rule_verdict(r, rm, ctx); if (v == 1) hit = true; else if (v == 2) maybe = true;
+    }
     if (!hit && !maybe) continue;
     Exp e = orig;
     e.last = false; e.pre = false;
@@ -209,6 +224,9 @@ void Model::capture(int sender, const wire::Msg &m0, int addressed, bool optiona
   for (size_t i = 0; i < conns.size(); i++) {
     Conn &k = conns[i];
     if (!k.alive || !k.monitor) continue;
+    // "only on connections where descriptor passing was negotiated": a monitor that did not negotiate it is not
+    // shown messages that carry descriptors (certainly not their header without the descriptors)
+    if (m.unix_fds() > 0 && !k.fdpass) { probes["monitor_without_fd_passing_skipped"]++; continue; }
     bool hit = false, maybe = false;
     for (auto &r : k.mon_rules) { int v = monitor_rule_verdict(r, rm, ctx); if (v == 1) hit = true; else if (v == 2) maybe = true; }
     if (!hit && !maybe) continue;
@@ -290,6 +308,7 @@ void Model::route(int sender, const wire::Msg &m, int addressed) {
       // the addressee's queue in the bus is over max_outgoing_bytes: refused with LimitsExceeded, nothing is
       // delivered and no reply is awaited
       probes["unicast_refused_queue_full"]++;
+      monitors_may_see_refusal(sender, m, E_LIMITS);
       if (sender >= 0) {
         Exp e;
         e.from_bus = true;
@@ -380,11 +399,16 @@ void Model::route_matches(int sender, const wire::Msg &m, int addressed, bool re
                      (can_receive && !can_receive(sender, m, (int)rc, addressed, requested));
       if (refused) { monitors_may_see_refusal(sender, m); continue; }
     } else if (can_send) monitors_may_see_refusal(sender, m);
-    if (m.unix_fds() > 0 && !k.fdpass) continue;
+    if (m.unix_fds() > 0 && !k.fdpass) {
+      // a matching recipient that cannot take the descriptors gets nothing; monitors may be shown that refusal
+      monitors_may_see_refusal(sender, m, "org.freedesktop.DBus.Error.NotSupported");
+      continue;
+    }
     bool queue_undetermined = false;
     if (queue_full) {
       if (multi_txn && emitted_in_event[(int)rc]++ > 0) queue_undetermined = true;
-      else if (queue_full((int)rc)) { probes["dropped_recipient_queue_full"]++; continue; }
+      else if (queue_full((int)rc)) { probes["dropped_recipient_queue_full"]++; monitors_may_see_refusal(sender, m, E_LIMITS); continue; }
+      if (queue_undetermined) monitors_may_see_refusal(sender, m, E_LIMITS);
     }
     Exp e;
     e.from_bus = sender < 0;
@@ -519,6 +543,19 @@ void Model::disconnect(int c) {
   if (k.hello) { name_signal(c, "NameLost", U(c)); name_owner_changed(U(c), U(c), ""); }
   if (k.hello) {
     doom_rules_naming(c);
+  }
+  if (k.monitor) {
+    // A departing MONITOR is swept out of the monitors' matchmaker like any connection out of the ordinary one:
+    // its own rules go, and so do other monitors' rules that name its unique name as sender or destination.
+    // (An ordinary client's departure leaves every monitor's filter untouched.)
+    std::string un = resolve(U(c));
+    for (size_t o = 0; o < conns.size(); o++) {
+      if ((int)o == c || !conns[o].alive || !conns[o].monitor) continue;
+      auto &v = conns[o].mon_rules;
+      size_t before = v.size();
+      v.erase(std::remove_if(v.begin(), v.end(), [&](const mr::Rule &r) { return (r.has_sender && r.sender == un) || (r.has_destination && r.destination == un); }), v.end());
+      if (v.size() != before) probes["monitor_rule_naming_departed_monitor_dropped"]++;
+    }
   }
   k.hello = false;
   k.rules.clear();
